@@ -4,7 +4,7 @@ ALLCONF = ['default', 'asm', 'int128struct', 'int64', 'verify']
 
 # how a configuration name maps to a harness build / run
 CONFIG_RUN = {
-    'default': {}, 'asm': {}, 'int128struct': {}, 'int64': {}, 'verify': {}, 'o2': {},
+    'default': {}, 'asm': {}, 'int128struct': {}, 'int64': {}, 'verify': {}, 'o2': {}, 'builtins': {},
     'memcheck': {'build': 'o1plain', 'sanitize': False, 'wrapper': ['valgrind', '-q', '--error-exitcode=96'], 'sample': 400,
                  'prefer': ['corpus', 'rangeproof_rewind', 'rangeproof_verify', 'surj_verify', 'wl_verify', 'bppp_verify', 'adaptor_recover', 'sig_parse_der']},
     'tsan': {'build': 'tsan', 'sanitize': False, 'only': ['ctx_threads'], 'env': {'TSAN_OPTIONS': 'halt_on_error=1:exitcode=98'}},
@@ -14,7 +14,7 @@ def C(quick, thorough=None):
     return {'quick': quick, 'thorough': thorough or ALLCONF}
 
 PROPS = {
-    'C11': {'gens': ['c11'], 'translate': ['G:guards'], 'configs': C(['default', 'int64'])},
+    'C11': {'gens': ['c11'], 'translate': ['G:guards'], 'configs': C(['default', 'int64', 'builtins'], ALLCONF + ['builtins'])},
     'C13': {'gens': ['c13'], 'configs': C(['default', 'int64'])},
     'C12': {'gens': ['c12'], 'translate': ['G:guards'], 'configs': C(['default', 'int64'])},
     'C01': {'gens': ['c01', 'c01p', 'c01q'], 'translate': ['G:guards', 'P:ecdsa', 'P:api'], 'configs': C(['default', 'int64'])},
@@ -32,8 +32,8 @@ PROPS = {
             'exclude': {'verify': ['adaptor_recover']},
             'assumptions': ['memory safety of the compiled code is observed by ASan/UBSan/LeakSanitizer/valgrind on the generated inputs only']},
     'C08': {'gens': ['c08', 'c08k'], 'translate': ['G:guards', 'F:group', 'F:generator'], 'configs': C(['default', 'int64'])},
-    'C09': {'gens': ['c09'], 'translate': ['G:guards'], 'configs': C(['default', 'int64'])},
-    'C10': {'gens': ['c10'], 'translate': ['G:guards'], 'configs': C(['default', 'int64'])},
+    'C09': {'gens': ['c09'], 'translate': ['G:guards'], 'configs': C(['default', 'int64', 'builtins'], ALLCONF + ['builtins'])},
+    'C10': {'gens': ['c10'], 'translate': ['G:guards'], 'configs': C(['default', 'int64', 'builtins'], ALLCONF + ['builtins'])},
     'C14': {'gens': ['c14'], 'translate': ['G:guards'], 'configs': C(['default', 'int64'], ['default', 'asm', 'int128struct', 'int64', 'verify']),
             'exclude': {'verify': ['adaptor_recover']},
             'assumptions': ['VERIFY build: the op adaptor_recover is not run (secp256k1_ecdsa_adaptor_recover with a signature whose s = 0 reaches '
@@ -45,5 +45,5 @@ PROPS = {
     'C18': {'gens': ['c18', 'c18k'], 'translate': ['G:guards', 'F:group', 'F:ellswift'], 'configs': C(['default', 'int64'])},
     'C20': {'gens': ['c20'], 'configs': C(['default', 'int64', 'tsan'], ['default', 'asm', 'int128struct', 'int64', 'verify', 'tsan']),
             'translate': ['statics', 'G:guards']},
-    'C19': {'gens': ['c19'], 'translate': ['G:guards'], 'configs': C(['default', 'int64'])},
+    'C19': {'gens': ['c19'], 'translate': ['G:guards'], 'configs': C(['default', 'int64', 'builtins'], ALLCONF + ['builtins'])},
 }
